@@ -224,7 +224,7 @@ Lemma parse_unary_safe st toks u :
   (forall t, opnd_ty st (tokn toks 3) = Some t -> unary_pre u t toks = true) ->
   no_panic (parse_unary true st toks u).
 Proof.
-  intros HJ Hu Hn Hpre. unfold parse_unary.
+  intros HJ Hu Hn Hpre. unfold parse_unary, lower_unary.
   apply no_panic_bind; [apply no_panic_require|intros u0 _].
   apply no_panic_bind; [apply no_panic_get_tpe|intros tpe _].
   apply no_panic_bind; [apply no_panic_get_expr; auto|intros e0 He0].
@@ -342,7 +342,7 @@ Lemma parse_binary_safe st toks bo :
   (forall ta tb, opnd_ty st (tokn toks 3) = Some ta -> opnd_ty st (tokn toks 4) = Some tb -> binary_pre bo ta tb = true) ->
   no_panic (parse_binary true st toks bo).
 Proof.
-  intros HJ Hbo Hsh Hn3 Hn4 Hpre. unfold parse_binary.
+  intros HJ Hbo Hsh Hn3 Hn4 Hpre. unfold parse_binary, lower_binary.
   apply no_panic_bind; [apply no_panic_require|intros u0 _].
   apply no_panic_bind; [apply no_panic_get_tpe|intros tpe _].
   apply no_panic_bind; [apply no_panic_get_expr; auto|intros a Ha].
@@ -391,7 +391,7 @@ Lemma parse_ternary_safe st toks (is_ite : bool) :
        opnd_ty st (tokn toks 5) = Some t2 -> ty_eqb tc (TBV 1) && ty_eqb t1 t2 = true) ->
   no_panic (parse_ternary true st toks is_ite).
 Proof.
-  intros HJ Hn3 Hn4 Hn5 Hpre. unfold parse_ternary.
+  intros HJ Hn3 Hn4 Hn5 Hpre. unfold parse_ternary, lower_ternary.
   apply no_panic_bind; [apply no_panic_require|intros u0 _].
   apply no_panic_bind; [apply no_panic_get_tpe|intros tpe _].
   apply no_panic_bind; [apply no_panic_get_expr; auto|intros a Ha].
@@ -650,19 +650,19 @@ Qed.
 
 Lemma parse_unary_tsafe st toks u e n : parse_unary true st toks u = POk (e, n) -> no_panic (tcheck true e).
 Proof.
-  unfold parse_unary. intros H. binv H u0 Hr. binv H tpe Ht. binv H e0 He0. binv H rc Hrc. destruct rc as [r count].
+  unfold parse_unary, lower_unary. intros H. binv H u0 Hr. binv H tpe Ht. binv H e0 He0. binv H rc Hrc. destruct rc as [r count].
   binv H c Hc. apply check_tsafe in Hc. destruct Hc as [-> Hs]. inversion H; subst. exact Hs.
 Qed.
 
 Lemma parse_binary_tsafe st toks bo e n : parse_binary true st toks bo = POk (e, n) -> no_panic (tcheck true e).
 Proof.
-  unfold parse_binary. intros H. binv H u0 Hr. binv H tpe Ht. binv H a Ha. binv H b Hb. binv H r Hrc.
+  unfold parse_binary, lower_binary. intros H. binv H u0 Hr. binv H tpe Ht. binv H a Ha. binv H b Hb. binv H r Hrc.
   binv H c Hc. apply check_tsafe in Hc. destruct Hc as [-> Hs]. inversion H; subst. exact Hs.
 Qed.
 
 Lemma parse_ternary_tsafe st toks b e n : parse_ternary true st toks b = POk (e, n) -> no_panic (tcheck true e).
 Proof.
-  unfold parse_ternary. intros H. binv H u0 Hr. binv H tpe Ht. binv H a Ha. binv H b0 Hb. binv H c0 Hc0. binv H r Hrc.
+  unfold parse_ternary, lower_ternary. intros H. binv H u0 Hr. binv H tpe Ht. binv H a Ha. binv H b0 Hb. binv H c0 Hc0. binv H r Hrc.
   binv H c Hc. apply check_tsafe in Hc. destruct Hc as [-> Hs]. inversion H; subst. exact Hs.
 Qed.
 
